@@ -127,6 +127,7 @@ REGISTRY["C18"] = {
         K("c18::c18_expect_no_overread_inet_tlv", "36-byte INET header with 8-byte TLV tail + payload in one segment",
           "bytes pulled from the socket == header length", EX, cbmc_args=FS256),
         M("c18_pipe_wouldblock_readiness", "Pipe::readable / writable / backend_readable / backend_writable (buffered path), loops unrolled once, socket I/O and buffers uninterpreted, Ready bit algebra exact", "a handler that saw WouldBlock and returns has cleared the event bit of that side and direction; on the write side it has not dropped the WRITABLE interest (pending bytes stay scheduled) and the event bit is cleared only on a would-block", ["lib/src/protocol/pipe.rs", "lib/src/socket.rs", "command/src/ready.rs"], prop="c18m", which="wouldblock"),
+        M("c18_pipe_keeps_session_while_inflight", "whole Pipe::check_connections (43 blocks): both statuses, both readiness words, buffer fill levels and splice counters symbolic", "frontend status in {Normal, WriteOpen} and response bytes in flight (backend_buffer non-empty, backend event READABLE, or splice pipe non-empty) => true, for every backend status incl. Closed; symmetrically for request bytes while the backend can still receive", ["lib/src/protocol/pipe.rs", "command/src/ready.rs"], prop="c18m", which="inflight"),
     ],
 }
 
@@ -322,6 +323,8 @@ REGISTRY["C19"] = {
         M("c19_manager_config_exact", "whole UdpManager::on_config, event fully symbolic", "SetMaxFlows(n) / SetMaxRxDatagramSize(n) store exactly n, Drain stores true, each only for its own variant and on every path; table and slab untouched", UM, prop="c19m", which="config"),
         M("c19_manager_admission_gate", "whole UdpManager::on_client_datagram; extractor, table lookup, slab len uninterpreted (arbitrary results)", "slab insert => key untracked, !draining, an unmutated flows.len() < max_flows observation; slab and table inserts paired; tracked key => forward_on_existing_flow; every datagram has exactly one of {admit, forward, drop}", UM, prop="c19m", which="admission"),
         M("c19_manager_teardown_after_count", "forward_on_existing_flow, on_backend_resolved, on_backend_datagram; flow methods uninterpreted", "each counted datagram is followed by teardown_reason() taken after the count; close_flow <=> that answer is Some; a flow kept open is rescheduled", UM, prop="c19m", which="teardown"),
+        M("c19_close_flow_guarded", "whole UdpManager::close_flow, map calls uninterpreted", "every table.remove(key) is preceded by table.get(same key) == Some(&flow_id) having held: closing a flow never unmaps another live flow that owns the key after an affinity change", UM, prop="c19m", which="close_guarded"),
+        M("c19_shell_inflight_cleared_per_datagram", "UdpListenerSession::ingest_client (I/O shell), receive loop unrolled once more", "in every pass of the receive loop in_flight_flow is set to None before the manager sees the datagram", ["lib/src/udp.rs"], prop="c19m", which="shell_inflight"),
     ],
 }
 
@@ -390,6 +393,8 @@ REGISTRY["C20"] = {
           "same, for the activation messages", ["command/src/config.rs"], prop="c20", unroll=300, unroll_thorough=600, loop_type="TcpListenerConfig", loop_ordinal=1),
         M("c20_every_item_emitted_once", "whole generate_config_messages, first iteration of each of its loops, iterators uninterpreted", "an item the loop yields is pushed exactly once, with exactly one counter increment; push sites in MIR == push sites in the source", ["command/src/config.rs"], prop="c20", which="emitted"),
         M("c20_default_listener_recorded", "whole ConfigBuilder::populate_clusters (HTTP and TCP frontend loops, first iteration), map calls uninterpreted", "push_{tls,http,tcp}_listener only when known_addresses.get answered None; after an Ok the address is inserted into known_addresses with the protocol of the listener created", ["command/src/config.rs"], prop="c20", which="listeners"),
+        M("c20_expect_proxy_agreement", "FileClusterConfig::to_cluster_config (TCP branch), frontend loop unrolled for two frontends, HashSet::contains answers free (e0, e1)", "the second frontend's conversion is reachable only when e0 == e1: mixed expect_proxy listeners are rejected in either order", ["command/src/config.rs"], prop="c20", which="proxy_agreement"),
+        M("c20_cluster_knobs_verbatim", "HttpClusterConfig / TcpClusterConfig::generate_requests; struct literal fields tracked by position", "for every Option<integer|bool> knob present under the same name and type in the builder and in the Cluster message: discriminant and payload of the message field == those of the declared field", ["command/src/config.rs", "command/src/proto/command.rs"], prop="c20", which="verbatim"),
     ],
 }
 
@@ -412,6 +417,8 @@ REGISTRY["C08"] = {
           listener_struct="HttpListenerConfig", patch_struct="UpdateHttpListenerConfig", replay_filter="accepted_patch"),
         M("c08_https_listener_patch_recorded", _c07, "same for ConfigState::update_https_listener", ["command/src/state.rs"], prop="c08", which="recorded", fn_suffix="::update_https_listener",
           listener_struct="HttpsListenerConfig", patch_struct="UpdateHttpsListenerConfig", replay_filter="accepted_patch"),
+        M("c08_worker_add_cluster_applies_knobs", "whole Server::add_cluster", "every BackendMap::set_* call is reached on every returning path (a knob carried as None is applied as None, like ConfigState does)", SV, prop="c08", which="add_cluster_knobs"),
+        M("c08_send_queue_discipline", "the queue closure of Server::send_queue, loop unrolled once more", "the response queue is only touched by pop_front / push_front; a response whose write_message returned Err is pushed back to the front, and only such a response", SV, prop="c08", which="queue_discipline"),
     ],
 }
 
@@ -427,7 +434,7 @@ REGISTRY["C02"] = {
     "obligations": [
         M("c02_end_stream_decision_table", "whole function; the four inputs fully symbolic", "each of the 5 decisions is chosen exactly under its documented condition; questions are asked of stream.back; SendDefault carries 502 only", ["lib/src/protocol/mux/shared.rs"], prop="c02", which="decision"),
         M("c02_retry_budget", "whole function (290 blocks), loops unrolled 2x, callees uninterpreted", "counter advanced only below CONN_RETRIES, by exactly one, cannot overflow; backend_from_request / new_h1_client / new_h2_client / start_stream reachable only after the counter was advanced and only below the budget", ["lib/src/protocol/mux/router.rs"], prop="c02", which="retry"),
-        M("c02_timeout_answer_table", "whole Mux::timeout (179 blocks), first iteration of each per-stream loop, every callee uninterpreted", "statuses within {408,503,504}; 408 only for Idle, 503 for exactly the Link streams, 504 only and always when back.consumed is false (frontend arm: Linked; backend arm: not terminated / error), forceful termination only when it is true; unlink before answering; never two answers per stream; every stream of the timed-out backend is ended", ["lib/src/protocol/mux/mod.rs", "lib/src/protocol/mux/stream.rs"], prop="c02", which="timeout"),
+        M("c02_timeout_answer_table", "whole Mux::timeout (179 blocks), first iteration of each per-stream loop, every callee uninterpreted", "statuses within {408,503,504}; 408 only for Idle, 503 for exactly the Link streams, 504 only and always when back.consumed is false (frontend arm: Linked; backend arm: not terminated / error), forceful termination only when it is true; unlink before answering; never two answers per stream; every stream of the timed-out backend is ended; after an Unlinked stream should_close == back.is_completed()", ["lib/src/protocol/mux/mod.rs", "lib/src/protocol/mux/stream.rs"], prop="c02", which="timeout"),
     ],
 }
 
@@ -469,5 +476,6 @@ REGISTRY["C16"] = {
         M("c16_per_ip_track", "whole SessionManager::track_cluster_ip; map/set calls uninterpreted (HashSet::insert answers an arbitrary bool)", "every return is preceded by the reverse-index insert; the forward count is advanced by exactly one, exactly when the insert reported a new triple", SV, prop="c16", which="per_ip_track"),
         M("c16_per_ip_limit", "effective_max_connections_per_ip, cluster_ip_at_limit and its count-test closure; lookups uninterpreted", "limit = override.unwrap_or(global); limit 0 => false; token already tracked => false; otherwise exactly the count test, which is count >= limit over the resolved limit", SV, prop="c16", which="per_ip_limit"),
         M("c16_per_ip_gate_call_sites", "whole Router::connect (290 blocks) and TcpSession::connect_to_backend (152 blocks), loops unrolled 2x, callees uninterpreted", "backend selection / connection after the gate only with answer false and after track_cluster_ip; tracking only after an admitting answer; at-limit => Err; same token checked and tracked", SV + ["lib/src/protocol/mux/router.rs", "lib/src/tcp.rs"], prop="c16", which="per_ip_gate"),
+        M("c16_timer_slot_hint_is_min", "whole Timer::poll_to, loop unrolled once more; slab / wheel indexing uninterpreted, cmp::min exact", "a store into a slot's next_tick that is not the TICK_MAX reset is <= the visited entry's tick and <= the slot's previous next_tick (an earlier pending timeout of the slot is never forgotten)", ["lib/src/timer.rs"], prop="c16", which="timer_hint"),
     ],
 }
